@@ -947,7 +947,14 @@ func (s *Store[K, V]) insertSimple(entry *Entry[K, V]) {
 }
 
 func (s *Store[K, V]) processSecondary() {
-	for item := range s.secondaryCacheBuf {
+	for {
+		var item SecondaryCacheItem[K, V]
+		select {
+		case item = <-s.secondaryCacheBuf:
+		case <-s.ctx.Done():
+			// Close: the channel is never closed (evictions may still offer items)
+			return
+		}
 		tk := item.shard.mu.RLock()
 		// first double check key still exists in map,
 		// not exist means key already deleted by Delete API
